@@ -1,7 +1,8 @@
-import NdnModel.Lvs.Proto
-/-  Driver of C11: the LVS line protocol (see NdnModel/Lvs/Proto.lean).  -/
+import NdnModel.Lvs.CProto
+/-  Driver of C11: the LVS line protocol (see NdnModel/Lvs/Proto.lean) extended with the compiler model
+    (NdnModel/Lvs/CProto.lean).  -/
 namespace Ndn.Drv.C11
 
-def handle (args : List String) : String := Ndn.Lvs.Proto.handle args
+def handle (args : List String) : String := Ndn.Lvs.CProto.handle args
 
 end Ndn.Drv.C11
